@@ -30,7 +30,7 @@ ASSUMPTIONS = [
     "rows range over the grid ([-2,2] + {2**53+1})^k: equivalence of predicates is decided on that grid only",
     "direct evaluation by vmon/interp.py (independent of both engines) and by iteration.Engine.convert_predicate",
 ]
-MIN_OBS = {"subexpression_required_columns_checked": 5000, "lookalike_handled_first": 1000, "trivial_true_or_false": 100, "flatten_false": 20, "flatten_lists": 300, "selection_checked": 300, "merged_selections_checked": 300, "restricted_rows_evaluated": 1000}
+MIN_OBS = {"subexpression_required_columns_checked": 5000, "refused_commutes_issued": 300, "lookalike_handled_first": 1000, "trivial_true_or_false": 100, "flatten_false": 20, "flatten_lists": 300, "selection_checked": 300, "merged_selections_checked": 300, "restricted_rows_evaluated": 1000}
 BIG = 2**53 + 1  # int and float arithmetic differ here: BIG + 1 != BIG + 1.0
 GRID = list(range(-2, 3)) + [BIG]
 COLS = ["a", "b", "c"]
@@ -235,6 +235,17 @@ def run_case(case):
             rel2 = rel.with_only_columns(set(req)) if set(req) != set(tags) else rel
             rel2.with_rows_satisfying(lib)
             R.Selection(lib).commute(rel) if isinstance(rel, R.UnaryOperationRelation) else None
+            if len(req) >= 2:
+                # commutation past an operation that *defines* one of the predicate's columns (its
+                # target has some but not all of them): the move has to be refused, and refusing
+                # must leave the predicate as it was
+                by_name = sorted(req, key=str)
+                made, src = by_name[0], by_name[1]
+                leaf2 = ite.make_leaf(set(tags) - {made}, iteration.RowSequence([{t: v for t, v in r.items() if t != made} for r in rows[:3]]), name="grid2")
+                rel3 = leaf2.with_calculated_column(made, R.ColumnExpression.reference(src))
+                cm = R.Selection(lib).commute(rel3)
+                c["refused_commutes_issued"] = c.get("refused_commutes_issued", 0) + (1 if cm.first is None else 0)
+                rel3.with_rows_satisfying(lib)
         except Exception as exc:  # noqa: BLE001
             viol("use_raised", exc_str(exc))
     else:
